@@ -41,6 +41,11 @@ def populate(shape, variant):
             n["tail"] = edge[(i + (2 if variant == 6 else 1)) % 5]
             n["attrs"] = [["k", edge[i % 5]], ["", "v"]]
             n["extras"] = [["p:e", edge[(i + 1) % 5]]]
+    if variant == 8:
+        # values that are not strings (the model stores what it is given; a copy must hold the very same values)
+        for i, n in enumerate(nodes):
+            n["attrs"] = [["k", 1000 + i], ["b", True], ["n", None], ["f", 1.5], ["s", "1000"]]
+            n["extras"] = [["p:e", i]]
     if variant == 2:
         for n in nodes:
             n["attrs"] = []
@@ -73,7 +78,7 @@ def node_at(root, path):
     return root
 
 
-def check_copy(g, cpath, acc):
+def check_copy(g, cpath, acc, light=False):
     n_checks = 0
     case0 = {"tree": g, "copied": list(cpath)}
     core.reset_store()
@@ -141,6 +146,8 @@ def check_copy(g, cpath, acc):
                 bad("copy_not_equal", {"path": d2[0], "field": d2[1], "value": d2[2]}, d2[3], field=d2[1])
     except Exception as e:  # noqa
         bad("copy_raised", "a second copy", repr(e))
+    if light:
+        return n_checks
     # independence: one edit at a time on either side
     copy_paths = [p for p, _ in gtree.walk(gtree.at(g, cpath))]
     tree_paths = [p for p, _ in gtree.walk(g)]
@@ -184,10 +191,27 @@ def check_copy(g, cpath, acc):
     return n_checks
 
 
+def scale_items():
+    """copies of trees beyond the exhaustive bound (equality, fresh ids, registration, parent links, second copy and copy of
+    the copy; the per-edit independence loop is left to the small trees)"""
+    out = []
+    shapes = gtree.scale_shapes()
+    big = gtree.star(65)
+    for c in big["children"]:
+        c["children"] = [gtree.plain("a") for _ in range(64)]
+    shapes.append(("65x64 (4226 nodes)", big))
+    for label, sh in shapes:
+        g = populate(sh, 0)
+        out.append((g, (), "light"))
+        if g["children"]:
+            out.append((g, (len(g["children"]) - 1,), "light"))
+    return out
+
+
 def work(item):
-    g, cpath = item
+    g, cpath = item[0], item[1]
     acc = core.Acc()
-    n = check_copy(g, cpath, acc)
+    n = check_copy(g, cpath, acc, light=(len(item) > 2))
     acc.count("checks", n)
     if not cpath:
         acc.sample({"tree_nodes": gtree.gsize(g), "copied": list(cpath), "checks": n})
@@ -196,7 +220,7 @@ def work(item):
 
 def replay(case):
     acc = core.Acc()
-    check_copy(case["tree"], tuple(case["copied"]), acc)
+    check_copy(case["tree"], tuple(case["copied"]), acc, light=gtree.gsize(case["tree"]) > 12)
     return [p for ps in acc.problems.values() for p in ps]
 
 
@@ -204,12 +228,13 @@ def explore(tier):
     maxn = 5 if tier == "quick" else 7
     items = []
     for s in gtree.shapes_upto(maxn):
-        for variant in (0, 1, 2, 3, 4, 5, 6, 7):
+        for variant in (0, 1, 2, 3, 4, 5, 6, 7, 8):
             if variant in (3, 4, 5) and gtree.gsize(s) < 2:
                 continue
             g = populate(s, variant)
             for path, _ in gtree.walk(g):
                 items.append((g, path))
+    items += scale_items()
     accs = core.pmap(work, items, chunksize=2)
     acc = core.merge_all(accs)
     n = acc.counts.get("checks", 0)
